@@ -90,7 +90,9 @@ P = {
          'correspondence of the full event vector with the model, all four operations, also at scales 2^-60 .. 2^40.', '§7 C13',
          'Coq: queue-filling theorems; correspondence on event vectors; exact planarity check'),
  'C14': ('proof', 'Proved for every instance: the selection tables (tables_correct), flag propagation incl. vertical predecessors '
-         '(propagation_correct, propagation_first), the twin rule; both refuted for the pinned code. compute_fields is tied to the model '
+         '(propagation_correct, propagation_first), the twin rule; both refuted for the pinned code; and the rule is the crossing-number rule: '
+         'for every status list the flags computed bottom-up are the parities of the non-vertical edges of the own / other operand below '
+         '(status_flags_are_parities) - what remains per run is that the status is sorted by the true vertical order. compute_fields is tied to the model '
          'EXHAUSTIVELY (every combination of its inputs executed on both sides). Per run: the flags of every sub-segment against exact '
          'crossing-number membership (rational Python).', '§7 C14',
          'Coq: decision-table theorems; exhaustive correspondence of compute_fields; per-run flag check'),
